@@ -100,6 +100,30 @@ theorem monatomic_rows (ρa : n → ℝ) :
     · intro b _ hb; have : ¬ a = b := fun e => hb e.symm; simp [this]
     · intro ha; exact absurd (Finset.mem_univ a) ha
 
+/-! ## the other two stages of `cost` act on each unordered pair separately -/
+
+/-- **closure stage is local to the pair**: the real-space closure output of pair `(i,j)` at grid point `l` is a function of
+that pair's own closure class, flag, contact distance, potential value and of `x` at `(l, lo, hi)` only — relabelling the
+types moves this data along with the pair and cannot mix pairs -/
+theorem closure_stage_local {inv : ℕ → Array ℝ → Array ℝ} {p p' q q' : Prism ℝ} {x x' : Array ℝ}
+    (T : CostTrace inv p q x) (T' : CostTrace inv p' q' x')
+    {l i j i' j' : ℕ} (hl : l < p.dom.length) (hl' : l < p'.dom.length) (hi : i < p.n) (hj : j < p.n) (hi' : i' < p'.n) (hj' : j' < p'.n)
+    (hdr : p'.dom.dr = p.dom.dr)
+    (hK : p'.cloK (loI i' j') (hiI i' j') = p.cloK (loI i j) (hiI i j))
+    (hσ : p'.cloSigma (loI i' j') (hiI i' j') = p.cloSigma (loI i j) (hiI i j))
+    (hu : (p'.u (loI i' j') (hiI i' j'))[l]! = (p.u (loI i j) (hiI i j))[l]!)
+    (hx : x'[(l * p'.n + loI i' j') * p'.n + hiI i' j']! = x[(l * p.n + loI i j) * p.n + hiI i j]!) :
+    T'.cR.at l i' j' = T.cR.at l i j := by
+  rw [T.cR_at hl hi hj, T'.cR_at hl' hi' hj', hK, hσ, hu, hdr,
+    T.gin_at hl (loI_lt hi hj) (hiI_lt hi hj), T'.gin_at hl' (loI_lt hi' hj') (hiI_lt hi' hj'), hx, hdr]
+
+/-- **transform stage is local to the pair**: the stored Fourier-space `directCorr` of a pair is the 1-d transform of that
+pair's own real-space function -/
+theorem transform_stage_local {inv : ℕ → Array ℝ → Array ℝ} {p q : Prism ℝ} {x : Array ℝ} (T : CostTrace inv p q x)
+    {l i j : ℕ} (hl : l < p.dom.length) (hi : i < p.n) (hj : j < p.n) :
+    q.directCorr.at l i j = (p.dom.toFourier (T.cR.pair i j))[l]! ∧ q.directCorr.at l i j = q.directCorr.at l j i := by
+  rw [T.hq_c]; exact ⟨T.cF_at hl hi hj, T.cF_symm hl hi hj⟩
+
 /-! ## energy scaling -/
 
 /-- scale the energy parameters (`ε`, `high_value`) of a potential object; lengths (`σ`, `α`, `r_cut`) stay -/
